@@ -592,12 +592,13 @@ fn create_doc_without_preceding_comment(
     }
     expr::E::Unary(e) => Document::Concat(
       Rc::new(Document::Text(e.operator.kind_str())),
+      // The operand of a unary operator cannot be another unary expression: `!(!a)`, `-(-a)`.
       Rc::new(create_doc_for_subexpression_considering_precedence_level(
         heap,
         comment_store,
         expression,
         &e.argument,
-        false,
+        true,
       )),
     ),
     expr::E::IfElse(e) => create_doc_for_if_else(heap, comment_store, e),
